@@ -162,8 +162,9 @@ class BiWordFilter(Filter):
                 prev_pos = ps
 
         # If no bi-words were emitted, that is, the token stream only had
-        # a single token, then emit that single token.
-        if not atleastone:
+        # a single token, then emit that single token. (An empty stream has
+        # none.)
+        if not atleastone and prev_text is not None:
             yield token
 
 
